@@ -25,6 +25,14 @@ type ReadCase struct {
 	// timeout) from the start, so no automatic reply gets out: reading is
 	// unaffected.  0 no, 1 plain error, 2 timeout.
 	WriteDead int `json:"write_dead,omitempty"`
+	// WriteCompOff: the application has switched its own write compression off
+	// (or set a level); that is a matter of what it sends, not of what it accepts.
+	WriteCompOff bool `json:"write_comp_off,omitempty"`
+	// Sibling: before this connection, another one of the same configuration was
+	// used and closed twice (explicit Close plus a deferred one); and while this
+	// connection is read a sibling of the same configuration is alive with a
+	// stream of its own. Each delivers its own messages.
+	Sibling bool `json:"sibling,omitempty"`
 }
 
 func genReaderCfg(t *rapid.T) ConnCfg {
@@ -54,6 +62,8 @@ func genReadCase(t *rapid.T) ReadCase {
 	c.Reads = genReadProgram(t, c.R.ReadBuf, true, true)
 	c.EOFWith = rapid.Bool().Draw(t, "eof_with_last_bytes")
 	c.WriteDead = rapid.SampledFrom([]int{0, 0, 0, 0, 1, 2}).Draw(t, "write_dead")
+	c.WriteCompOff = rapid.IntRange(0, 3).Draw(t, "write_comp_off") == 0
+	c.Sibling = rapid.IntRange(0, 4).Draw(t, "sibling") == 0
 	return c
 }
 
@@ -212,10 +222,40 @@ func compareRead(model []MMsg, rt *RTrace, reads []RStep) (int, error) {
 
 func checkC03(c ReadCase, o *Obs) error {
 	model := BuildStream(c.S, c.R.Server, c.R.Compress)
+	if c.Sibling {
+		trp := xport.NewScriptConn(nil, nil)
+		pre, err := NewConn(c.R, trp, nil)
+		if err != nil {
+			return err
+		}
+		pre.Close()
+		pre.Close()
+	}
 	tr := xport.NewScriptConn(nil, nil)
 	conn, err := NewConn(c.R, tr, nil)
 	if err != nil {
 		return err
+	}
+	if c.Sibling {
+		trs := xport.NewScriptConn(nil, nil)
+		sib, err := NewConn(c.R, trs, nil)
+		if err != nil {
+			return err
+		}
+		want := []byte("message for the sibling connection")
+		trs.SetInput(wsref.AppendFrame(nil, wsref.Frame{Fin: true, Opcode: wsref.OpBinary, Masked: c.R.Server, Key: [4]byte{9, 8, 7, 6}, Payload: want}), nil)
+		defer func() {
+			mt, got, err := sib.ReadMessage()
+			if err != nil || mt != websocket.BinaryMessage || !bytes.Equal(got, want) {
+				observe("a sibling connection of the same configuration, alive while this one was read, delivered type %d %q (%v) instead of its own message %q", mt, abbrev(got), err, want)
+			}
+		}()
+		o.Class("sibling_connection_alive_after_a_double_close")
+	}
+	if c.WriteCompOff {
+		conn.EnableWriteCompression(false)
+		conn.SetCompressionLevel(9)
+		o.ClassIf(c.R.Compress, "own_write_compression_off_while_reading_compressed")
 	}
 	tr.SetInput(model.Wire, c.Chunks)
 	tr.EOFWithData = c.EOFWith
